@@ -156,7 +156,9 @@ MallStep(st, fr) ==
     [] fr.f = "mallSubInner" ->  \* value.actual_subscribe(InnerObserver); subscription.append(..)
          LET inn == NextNode(st)
              st1 == AddNode(st, Node("mallIn", D)) IN
-         Push(st1, <<Sub(InnerOf(nd.b, fr.v), inn), F1("mappendv", nd.c)>>)
+         IF fr.v[1] = "g"        \* the item is a group announced by group_by: subscribe its subject
+         THEN Push(st1, <<Fr("ssub", fr.v[2], "", U, inn), F1("mappendv", nd.c)>>)
+         ELSE Push(st1, <<Sub(InnerOf(nd.b, fr.v), inn), F1("mappendv", nd.c)>>)
     [] fr.f = "mallE" ->
          IF nd.f THEN Push([st EXCEPT !.nodes[D].f = FALSE], <<CallE(nd.d, fr.v)>>) ELSE st
     [] fr.f = "mallOutC" ->
